@@ -60,6 +60,22 @@ CHECKS = {
              'tract order / shared description, Tract.lots and .ilots agree with it on rendered lists.',
         note='Numbers in S come from boundary sets (formatting concretises them). Chained ranges (a - b - c) are outside the oracle. '
              'A warning on an equal-endpoint "range" (2 - 2) is tolerated (the statement only requires it for descending ranges).'),
+    'C08': dict(
+        engine='M+S', category='model_checking', design_ref='DESIGN.md §4 C08',
+        technique='SMT (z3): exact bounded encoding of CPython matching of the live twprge_regex and pp_twprge_* patterns on '
+                  'spelling templates (engine M); CrossHair symbolic execution of unpack_twprge, of the default-direction '
+                  'precedence through parse / preprocess / find_twprge, and of rendered spellings through the public API',
+        text='M: each of the nine documented Twp/Rge forms (3 casings, symbolic 1-3 digit numbers, both directions, the lone-2 range '
+             'rule) inside contexts of <= 3 (5) characters is matched by the live twprge_regex as a whole, with the number and '
+             'direction groups on the written fields; every later scrubber re-matches the canonical T154N-R97W form with the same '
+             'fields (taking at most trailing dead space); forms lacking N/S and/or E/W are not claimed by twprge_regex and are '
+             'matched by pp_twprge_no_nswe with that group absent. S: unpack_twprge drops leading zeros, keeps an explicit direction, '
+             'uses the default only for an absent group (keyword, else MasterConfig), maps OCR look-alikes under ocr_scrub; through '
+             'PLSSDesc.parse / preprocess / find_twprge a missing direction is filled by keyword > config > MasterConfig, raises '
+             'fixed_twprge, and gives the same tracts as the written-out form; rendered spellings give the canonical pp_desc, '
+             'find_twprge result and tract Twp/Rge.',
+        note='Context alphabet excludes n s e w t (it cannot contain a direction or the optional leading T). Forms outside Appendix A '
+             'and Unicode digits are outside the claim. Numbers in S come from small tables.'),
     'C09': dict(
         engine='S', category='other', design_ref='DESIGN.md §4 C09',
         technique='CrossHair symbolic execution of the real tract-construction glue (construct_tracts, get_next_twprge/sec, '
